@@ -132,19 +132,7 @@ def check(F, run, tier):
     run.add([o for o in c09.validation_and_orientation(F, S) if "headers-before-allocation" in o.instance or "#validated" in o.instance])
     run.add(ic.invert_scan_lines(F, S))
     run.add(ic.pitch_law(F, S))
-    # the pixel-size cross-check compares full-width quantities (no narrowing of the expected size)
-    from ..rules_narrow import r_narrow
-    vp = F.fn(B + "::VerifyPixelSizeMatchesImageDimensionsWithPitch", nparams=4)
-    o, k = r_narrow(F, S, vp, explicit_only=False, sign_conversions=False)
-    run.add(o)
-    W = Width(vp)
-    for nd in vp.nodes:
-        if nd["k"] == "BinaryOperator" and nd.get("op") == "*" and "cv" not in nd:
-            inst = "%s#product-width" % vp.qn
-            if (nd.get("iw") or 0) >= 64:
-                run.add(ok("R-NOWRAP", inst, vp.loc(nd["id"]), vp.qn, "pitch x |height| is formed in 64 bits", "type %s" % nd.get("ct")))
-            else:
-                run.add(bad("R-NOWRAP", inst, vp.loc(nd["id"]), vp.qn, "pitch x |height| is formed in 64 bits", "formed in %s: matches modulo 2^%s only" % (nd.get("ct"), nd.get("iw"))))
+    run.add(ic.pixel_size_check_width(F, S))
     obs, n = ic.no_partial_reads(F, S, ["/Bitmap/", "/Sprite/"])
     run.add(obs)
     run.floor("read-sites", n, 30)
